@@ -518,3 +518,60 @@ def ref_alias(blk):
         i += 1
     blk["stmts"] = stmts
     return changed
+
+
+
+# ------------------------------------------------------------------ explicit Entry match -> and_modify / or_insert
+
+def entry_match(n):
+    """`match m.entry(k) { Occupied(mut o) => { o.get_mut().f(args); }, Vacant(v) => { v.insert_entry(d); } }`
+       ==  `m.entry(k).and_modify(|x| x.f(args)).or_insert(d);`   (the documented meaning of the combinators; std, scc)"""
+    e = n.get("e")
+    arms = n.get("arms", [])
+    if not (isinstance(e, dict) and e.get("k") == "mcall" and (e.get("callee") or "").endswith("::entry") and len(arms) == 2):
+        return None
+    occ = next((a for a in arms if a["pat"].get("k") == "ptstruct" and a["pat"].get("path", "").endswith("Entry::Occupied")), None)
+    vac = next((a for a in arms if a["pat"].get("k") == "ptstruct" and a["pat"].get("path", "").endswith("Entry::Vacant")), None)
+    if occ is None or vac is None or occ.get("guard") or vac.get("guard"):
+        return None
+    if len(occ["pat"].get("ps", [])) != 1 or len(vac["pat"].get("ps", [])) != 1:
+        return None
+    ob, vb = occ["pat"]["ps"][0], vac["pat"]["ps"][0]
+    if ob.get("k") != "pbind" or vb.get("k") != "pbind":
+        return None
+
+    def single(body):
+        b = body
+        if b.get("k") == "block":
+            items = list(b.get("stmts", [])) + ([b["expr"]] if b.get("expr") is not None else [])
+            if len(items) != 1:
+                return None
+            b = items[0]
+        return b["e"] if b.get("k") == "semi" else b
+    oc, vc = single(occ["body"]), single(vac["body"])
+    if not (isinstance(oc, dict) and oc.get("k") == "mcall" and isinstance(vc, dict) and vc.get("k") == "mcall"):
+        return None
+    # occupied: <o.get_mut()>.f(args)
+    r = _strip_ref(oc.get("recv"))
+    if not (isinstance(r, dict) and r.get("k") == "mcall" and (r.get("callee") or "").split("::")[-1] in ("get_mut", "get")
+            and _strip_ref(r.get("recv")).get("k") == "local" and _strip_ref(r["recv"]).get("id") == ob["id"]):
+        return None
+    if _uses_of(oc.get("args", []), ob["id"]):
+        return None
+    # vacant: v.insert_entry(d) / v.insert(d)
+    if (vc.get("callee") or "").split("::")[-1] not in ("insert_entry", "insert") or len(vc.get("args", [])) != 1:
+        return None
+    vr = _strip_ref(vc.get("recv"))
+    if not (isinstance(vr, dict) and vr.get("k") == "local" and vr.get("id") == vb["id"]) or _uses_of(vc["args"], vb["id"]):
+        return None
+    sp = n.get("sp")
+    base = (e.get("callee") or "").rsplit("::", 1)[0]
+    ent = "scc::hash_map::Entry" if base.startswith("scc::") else "std::collections::hash_map::Entry"
+    vid = fresh_id()
+    vty = r.get("ty", "")
+    clo = {"k": "closure", "sp": sp, "ty": "closure", "def": "entry_match", "params": [
+        {"k": "pbind", "name": "v", "id": vid, "mode": "BindingMode(No, Not)", "ty": vty, "sp": sp}],
+        "body": dict(oc, recv={"k": "local", "name": "v", "id": vid, "ty": vty, "sp": sp})}
+    am = {"k": "mcall", "ty": e.get("ty"), "sp": sp, "name": "and_modify", "callee": ent + "::and_modify", "recv": e, "args": [clo]}
+    return {"k": "mcall", "ty": vc.get("ty"), "sp": sp, "name": "or_insert", "callee": ent + "::or_insert", "recv": am,
+            "args": vc["args"], "from_entry_match": True}
